@@ -7,3 +7,9 @@ package verifhook
 
 // Point marks a place where the verification harness may interrupt execution.
 func Point(name string) {}
+
+// PointKey marks a durable write of the given layer (database, log) to the given key.
+func PointKey(layer string, key []byte) {}
+
+// PointPath marks a durable write of the given layer to the file at path.
+func PointPath(layer string, path string) {}
